@@ -94,23 +94,68 @@ def deep_eq(a, b) -> bool:
         return a is b
 
 
+POINTERS = {"DRAFT_2020_12": "#/$defs", "OPEN_API_3_1": "#/components/schemas"}
+
+
+def effective_dialect(params: dict) -> str:
+    cx = params.get("context") or {}
+    return params.get("dialect") or cx.get("dialect") or "DRAFT_2020_12"
+
+
 def used_prefix(params: dict) -> tuple[str, str]:
-    """(configured prefix after stripping trailing slashes, prefix expected in emitted refs).
-    Written from the documentation of the API, independently of builder.py: the prefix is
-    ref_prefix without trailing slashes; without ref_prefix it is the dialect's pointer."""
-    dialect = params.get("dialect") or "DRAFT_2020_12"
-    root = {"DRAFT_2020_12": "#/$defs", "OPEN_API_3_1": "#/components/schemas"}[dialect]
+    """(configured prefix, prefix expected in emitted refs).  Written from the documentation of the API,
+    independently of builder.py: an explicit ref_prefix argument wins (trailing slashes stripped); otherwise
+    the ref_prefix of the Context the caller passed (used as it is); otherwise the definitions pointer of the
+    dialect in force (dialect argument, else the passed context's dialect, else Draft 2020-12)."""
+    cx = params.get("context") or {}
     rp = params.get("ref_prefix")
-    if rp is None:
+    root = POINTERS[effective_dialect(params)]
+    if rp is not None:
+        conf = rp.rstrip("/")
+    elif cx.get("ref_prefix") is not None:
+        conf = cx["ref_prefix"]
+    else:
         return root, root
-    conf = rp.rstrip("/")
-    return conf, conf
+    # observation (see report): an EMPTY configured prefix is treated as "not configured" by on_dataclass and the
+    # dialect pointer is used; "starts with the configured prefix" holds trivially for the empty prefix
+    return conf, (conf if conf != "" else root)
 
 
 def effective_all_refs(params: dict) -> bool:
+    cx = params.get("context") or {}
     if params.get("all_refs") is not None:
         return params["all_refs"]
-    return (params.get("dialect") or "DRAFT_2020_12") == "OPEN_API_3_1"
+    if cx.get("all_refs") is not None:
+        return cx["all_refs"]
+    return effective_dialect(params) == "OPEN_API_3_1"
+
+
+def make_context(params: dict):
+    from mashumaro.jsonschema import dialects as jd
+    from mashumaro.jsonschema.models import Context
+    cx = params.get("context")
+    if not cx:
+        return Context()
+    kw = {}
+    if cx.get("dialect"):
+        kw["dialect"] = getattr(jd, cx["dialect"])
+    if cx.get("all_refs") is not None:
+        kw["all_refs"] = cx["all_refs"]
+    if cx.get("ref_prefix") is not None:
+        kw["ref_prefix"] = cx["ref_prefix"]
+    return Context(**kw)
+
+
+def call_kwargs(params: dict) -> dict:
+    from mashumaro.jsonschema import dialects as jd
+    kw = {}
+    if params.get("dialect"):
+        kw["dialect"] = getattr(jd, params["dialect"])
+    if params.get("all_refs") is not None:
+        kw["all_refs"] = params["all_refs"]
+    if params.get("ref_prefix") is not None:
+        kw["ref_prefix"] = params["ref_prefix"]
+    return kw
 
 
 class CaseTimeout(BaseException):
@@ -132,7 +177,9 @@ class Problem(Exception):
         self.detail = detail
 
 
-def check_doc(doc, defs_docs: dict, params: dict, check_rt=True):
+def check_doc(doc, defs_docs: dict, params, check_rt=True, own_only=False):
+    """own_only: the references of the embedded "$defs" are not attributed to this call's configuration
+    (shared context: they were collected by earlier calls and are checked as definitions)"""
     import jsonschema
     from mashumaro.jsonschema.models import JSONSchema
     # (2)
@@ -143,23 +190,33 @@ def check_doc(doc, defs_docs: dict, params: dict, check_rt=True):
                       {"error": str(e.message)[:300], "path": [str(p) for p in e.absolute_path]})
     except Exception as e:
         raise Problem("metaschema", f"the validator crashed on the document ({type(e).__name__})", {"depth": depth_of(doc), "exc": type(e).__name__})
-    # (3)
-    conf, used = used_prefix(params)
-    for ref in refs_of(doc):
+    # (3) params may be a list: definitions collected by several calls, each under its own configuration
+    plist = params if isinstance(params, list) else [params]
+    pairs = []
+    for p in plist:
+        pr = used_prefix(p)
+        if pr not in pairs:
+            pairs.append(pr)
+    own = {k: v for k, v in doc.items() if k != "$defs"} if own_only and isinstance(doc, dict) else doc
+    for ref in refs_of(own):
         if not isinstance(ref, str):
             raise Problem("refs", "$ref is not a string", {"ref": repr(ref)})
-        if not ref.startswith(conf):
-            raise Problem("refs", "$ref does not start with the configured prefix", {"ref": ref, "prefix": conf})
-        if conf == "":
-            # an empty configured prefix: builder falls back to the dialect pointer (observation, see report);
-            # the property text only asks for "starts with the configured prefix", which holds trivially
-            name = ref.rsplit("/", 1)[-1]
-        else:
+        err = None
+        for conf, used in pairs:
+            if not ref.startswith(conf):
+                err = Problem("refs", "$ref does not start with the configured prefix", {"ref": ref, "prefix": conf})
+                continue
             if not ref.startswith(used + "/"):
-                raise Problem("refs", "$ref is not <prefix>/<name>", {"ref": ref, "prefix": used})
+                err = Problem("refs", "$ref is not <prefix>/<name>", {"ref": ref, "prefix": used})
+                continue
             name = ref[len(used) + 1:]
-        if name not in defs_docs:
-            raise Problem("refs", "$ref names no collected definition", {"ref": ref, "definitions": sorted(defs_docs)})
+            if name not in defs_docs:
+                err = Problem("refs", "$ref names no collected definition", {"ref": ref, "definitions": sorted(defs_docs)})
+                continue
+            err = None
+            break
+        if err is not None:
+            raise err
     # (4)
     if check_rt:
         try:
@@ -223,14 +280,8 @@ def _run_case(case: dict, params: dict, stats: dict) -> dict:
         try:
             if case["mode"] == "single":
                 step = 0
-                ctx = Context()
-                kw = {}
-                if dialect is not None:
-                    kw["dialect"] = dialect
-                if params.get("all_refs") is not None:
-                    kw["all_refs"] = params["all_refs"]
-                if params.get("ref_prefix") is not None:
-                    kw["ref_prefix"] = params["ref_prefix"]
+                ctx = make_context(params)
+                kw = call_kwargs(params)
                 try:
                     schema = build_json_schema(roots[0], context=ctx, with_definitions=params["with_definitions"],
                                                with_dialect_uri=params["with_dialect_uri"], **kw)
@@ -248,7 +299,7 @@ def _run_case(case: dict, params: dict, stats: dict) -> dict:
                 elif "$defs" in doc:
                     raise Problem("refs", "$defs present although with_definitions=False or no definitions", {})
                 if params["with_dialect_uri"]:
-                    uri = (dialect or jd.DRAFT_2020_12).uri
+                    uri = getattr(jd, effective_dialect(params)).uri
                     if doc.get("$schema") != uri:
                         raise Problem("metaschema", "$schema is not the dialect uri", {"got": repr(doc.get("$schema"))})
                 if not effective_all_refs(params) and (refs_of(doc) or defs_docs):
@@ -258,7 +309,7 @@ def _run_case(case: dict, params: dict, stats: dict) -> dict:
                 for nm, dd in defs_docs.items():
                     check_doc(dd, defs_docs, params)
                 # an independent second call with a fresh context gives the same document and definitions
-                ctx2 = Context()
+                ctx2 = make_context(params)
                 try:
                     doc2 = build_json_schema(roots[0], context=ctx2, with_definitions=params["with_definitions"],
                                              with_dialect_uri=params["with_dialect_uri"], **kw).to_dict()
@@ -269,14 +320,50 @@ def _run_case(case: dict, params: dict, stats: dict) -> dict:
                 if not deep_eq(doc2, doc) or not deep_eq(defs2, defs_docs):
                     raise Problem("accumulate", "a second call with a fresh context gives a different document / definitions",
                                   {"first": repr(doc)[:300], "second": repr(doc2)[:300], "defs_first": sorted(defs_docs), "defs_second": sorted(defs2)})
+            elif case["mode"] == "shared":
+                # several build_json_schema calls, each with its own keyword arguments, on ONE caller-supplied Context
+                ctx = make_context(params)
+                prev: dict = {}
+                seen_params: list = []
+                stable = True
+                for step, (root, sp) in enumerate(zip(roots, params["steps"])):
+                    case["_step"] = step
+                    p_i = {**sp, "context": params.get("context")}
+                    try:
+                        doc = build_json_schema(root, context=ctx, with_definitions=sp["with_definitions"],
+                                                with_dialect_uri=sp["with_dialect_uri"], **call_kwargs(sp)).to_dict()
+                        defs_docs = {k: v.to_dict() for k, v in ctx.definitions.items()}
+                    except Exception as e:
+                        return {"ok": False, "clause": "total", "what": f"build_json_schema (shared context) raised {type(e).__name__}", "step": step,
+                                "exc": type(e).__name__, "msg": str(e)[:300]}
+                    stats["docs"] += 1
+                    stats["refs"] += len(refs_of(doc))
+                    stats["defs"] = len(defs_docs)
+                    if sp["with_definitions"] and defs_docs:
+                        if not deep_eq(doc.get("$defs"), defs_docs):
+                            raise Problem("refs", "$defs of the document differ from context.definitions", {"doc_defs": repr(doc.get("$defs"))[:400]})
+                    elif "$defs" in doc:
+                        raise Problem("refs", "$defs present although with_definitions=False or no definitions", {})
+                    own = {k: v for k, v in doc.items() if k != "$defs"}
+                    if not effective_all_refs(p_i) and refs_of(own):
+                        raise Problem("refs", "references emitted although all_refs is off", {"refs": refs_of(own)[:5]})
+                    _check_root_ref(root, doc, p_i)
+                    check_doc(doc, defs_docs, p_i, own_only=True)
+                    cfg_i = (effective_all_refs(p_i), used_prefix(p_i))
+                    if seen_params and any((effective_all_refs(q), used_prefix(q)) != cfg_i for q in seen_params):
+                        stable = False      # the caller changed prefix / all_refs between calls: definitions may legitimately differ
+                    seen_params.append(p_i)
+                    for nm, dd in prev.items():
+                        if nm not in defs_docs:
+                            raise Problem("accumulate", "a definition disappeared after a later build", {"name": nm})
+                        if stable and not deep_eq(defs_docs[nm], dd):
+                            raise Problem("accumulate", "an earlier definition changed after a later build",
+                                          {"name": nm, "before": repr(dd)[:300], "after": repr(defs_docs[nm])[:300]})
+                    prev = defs_docs
+                for nm, dd in prev.items():
+                    check_doc(dd, prev, seen_params)
             else:
-                kw = {}
-                if dialect is not None:
-                    kw["dialect"] = dialect
-                if params.get("all_refs") is not None:
-                    kw["all_refs"] = params["all_refs"]
-                if params.get("ref_prefix") is not None:
-                    kw["ref_prefix"] = params["ref_prefix"]
+                kw = call_kwargs(params)
                 builder = JSONSchemaBuilder(**kw)
                 prev: dict = {}
                 docs = []
@@ -326,7 +413,7 @@ def classify(case: dict, res: dict) -> dict:
     step = res.get("step", 0) or 0
     feats = case["feats"]
     # features of every root built up to and including the failing step (definitions are shared)
-    upto = feats[: step + 1] if case["mode"] == "builder" else feats[:1]
+    upto = feats[: step + 1] if case["mode"] in ("builder", "shared") else feats[:1]
     last = upto[-1] if upto else {}
     sig = {"clause": res.get("clause"), "exc": res.get("exc")}
     exc = res.get("exc")
@@ -339,7 +426,9 @@ def classify(case: dict, res: dict) -> dict:
             kind = "final-type"
         elif exc == "TypeError" and "doesn't apply to a 'CC' object" in msg and last.get("slots_hit"):
             kind = "slots-descriptor-default"
-        elif exc in ("SyntaxError", "NameError") and last.get("omit_default_container"):
+        elif (exc in ("SyntaxError", "NameError") or (exc == "InvalidFieldValue" and "_default.<locals>.CC" in msg)) \
+                and last.get("omit_default_container"):
+            # (inside a Union the NameError of the spliced repr is re-raised by the union packer as InvalidFieldValue)
             kind = "omit-default-repr-splice"
         elif exc == "ValueError" and msg.startswith("mutable default") and last.get("nt_mutable"):
             kind = "nt-mutable-default"
@@ -360,11 +449,12 @@ def classify(case: dict, res: dict) -> dict:
         if _clash_across(upto):
             kind = "defs-bare-name-clash"
         else:
-            # the outer specialisation's type argument leaks into a nested generic dataclass field (H[int] holding G[str]
-            # renders G's T as int): the definition of G differs between the nested and the direct build
+            # the definition of a generic dataclass depends on where the specialisation is reached from: the outer
+            # specialisation's type argument leaks into a nested generic field (H[int] holding G[str] renders G's T as int),
+            # and a bare `y: T` field is resolved when G[str] is nested but left open when G[str] is the root
             uses = [tuple(u) for f in upto for u in f.get("generic_uses", [])]
             name = (res.get("detail") or {}).get("name")
-            if name in {g for g, _ in uses} and len({a for _, a in uses}) >= 2:
+            if name in {g for g, _ in uses}:
                 kind = "generic-typevar-leak"
     sig["kind"] = kind
     return sig
